@@ -143,12 +143,49 @@ def _check_function(ctx: Ctx, f: FuncInfo, srcs: list[ast.AST]) -> list[Ob]:
                     if t.elts[0].id not in tainted_names:
                         tainted_names.add(t.elts[0].id)
                         changed = True
+    # flow-sensitive refinement: a load of a tainted *name* counts only if a tainted definition reaches it
+    from ..canon import FlowCanon
+    from ..cfg import build_cfg
+
+    try:
+        g = build_cfg(f.node)
+        fc = FlowCanon(g)
+        node_of: dict[int, int] = {}
+        for nid, st in g.stmts.items():
+            hdr = [st.test] if isinstance(st, (ast.If, ast.While)) else [st.iter] if isinstance(st, ast.For) else [i.context_expr for i in st.items] if isinstance(st, ast.With) else [] if isinstance(st, (ast.Try, ast.FunctionDef, ast.ClassDef)) else [st]
+            for h in hdr:
+                for x in ast.walk(h):
+                    node_of[id(x)] = nid
+        tainted_defs = set()
+        ch = True
+        while ch:
+            ch = False
+            for d in fc.defs:
+                if d.uid in tainted_defs or d.expr is None:
+                    continue
+                e = d.expr
+                t = _is_deref(e) or (isinstance(e, ast.Subscript) and _is_lookup(e.value) and isinstance(e.slice, ast.Constant) and e.slice.value == 0)
+                if not t and isinstance(e, ast.Name):
+                    t = any(u in tainted_defs for u in fc.IN[d.node].get(e.id, ()))
+                if t:
+                    tainted_defs.add(d.uid)
+                    ch = True
+
+        def reaches(n: ast.Name) -> bool:
+            nid = node_of.get(id(n))
+            if nid is None:
+                return True
+            return any(u in tainted_defs for u in fc.IN[nid].get(n.id, ()))
+    except RecursionError:
+        def reaches(n: ast.Name) -> bool:  # type: ignore[misc]
+            return True
+
     # every occurrence of a tainted value
     occs: list[ast.AST] = []
     for n in walk_no_nested(f.node):
         if _is_deref(n):
             occs.append(n)
-        elif isinstance(n, ast.Name) and isinstance(n.ctx, ast.Load) and n.id in tainted_names:
+        elif isinstance(n, ast.Name) and isinstance(n.ctx, ast.Load) and n.id in tainted_names and reaches(n):
             occs.append(n)
         elif isinstance(n, ast.Subscript) and tainted(n):
             occs.append(n)
@@ -303,3 +340,44 @@ def r6q(ctx: Ctx, modules: tuple[str, ...] = ("cirkit.backend.torch",)) -> list[
                 out.append(ok("R6q", f.qualname, f"tree-walk:{walk}", "a module-tree traversal that writes nothing", site))
     out.append(ok("R6q", "cirkit.backend.torch", "tree-walks", f"{n_fn} functions scanned", "", nontrivial=(n_fn > 0)))
     return out
+
+
+# ------------------------------------------------------------------------------------------ R6r
+def r6r(ctx: Ctx) -> list[Ob]:
+    """R6r -- a symbolic tensor is compiled to one torch tensor per compiler.
+
+    Two symbolic circuits may share symbolic layers (``Circuit.subgraph``, a hand-built evidence layer
+    copied with ``copyref``, one TensorParameter object used by two layers).  The rule that compiles a
+    symbolic tensor allocates a torch tensor *and registers it*: when the symbolic tensor has been
+    compiled before, allocating again duplicates the parameter and overwrites the registry entry, so
+    every circuit derived afterwards from the first circuit points at the tensors of the second.  The
+    allocation in ``compile_tensor_parameter`` must be unreachable once
+    ``has_compiled_parameter(p)`` holds (the already compiled tensor is then referenced)."""
+    from ..cfg import ENTRY, build_cfg, stmt_calls
+    from ..boolexpr import ALWAYS, NEVER, fires
+
+    fq = "cirkit.backend.torch.rules.parameters.compile_tensor_parameter"
+    f = ctx.repo.func(fq)
+    g = build_cfg(f.node)
+    allocs = [n for n in g.stmts if any((dotted(c.func) or "").split(".")[-1] == "TorchTensorParameter" for c in stmt_calls(g.stmts[n]))]
+    if not allocs:
+        return [unres("R6r", fq, "compile-once", "no TorchTensorParameter(..) allocation found", f.loc)]
+    # prune the edges that contradict  has_compiled_parameter(p) == True
+    seen = {ENTRY}
+    stack = [ENTRY]
+    while stack:
+        a = stack.pop()
+        for b, lab in g.succ.get(a, []):
+            if lab is not None and lab[0] is not None:
+                env = {unparse(x): True for x in ast.walk(lab[0]) if isinstance(x, ast.Call) and isinstance(x.func, ast.Attribute) and x.func.attr == "has_compiled_parameter"}
+                if env:
+                    verdict, _ = fires(lab[0], env)
+                    if (verdict == ALWAYS and lab[1] is False) or (verdict == NEVER and lab[1] is True):
+                        continue
+            if b not in seen:
+                seen.add(b)
+                stack.append(b)
+    hit = [n for n in allocs if n in seen]
+    if hit:
+        return [viol("R6r", fq, "compile-once", "a new TorchTensorParameter is allocated and registered also when the symbolic tensor has already been compiled (no has_compiled_parameter test guards it): a second circuit sharing the symbolic tensor (Circuit.subgraph, a copied evidence layer) gets its own copy and overwrites the registry entry, so circuits derived from the first one afterwards read the second one's tensors", f"{f.module.relpath}:{g.stmts[hit[0]].lineno}")]
+    return [ok("R6r", fq, "compile-once", "the allocation is unreachable once the symbolic tensor has a compiled counterpart (it is referenced instead)", f.loc)]
